@@ -4,6 +4,10 @@ Real code: DataLoader.time_align_data (python/fusion_engine_client/analysis/data
 MessageData built from real message objects.  Model/spec: lean/FeVerif/Model/Align.lean through the driver commands
 `align` / `alignspec` / `alignseq` / `alignseqspec` / `npunique` / `npisect`.
 
+BOUNDARY SIZES (sized_cases / sized_histories): besides the small grids and random dicts, alignments whose number of result epochs
+(INSERT union, DROP intersection) or number of messages of one type is exactly 2^k-1 .. 2^k+2 (k = 7, 8; thorough also 15, 16),
+judged by the same oracle (object identity and content at every position) and the same Lean model / spec.
+
 Besides single calls the harness drives HISTORIES on one dict: numeric conversions that keep the messages
 (DataLoader.to_numpy(data, keep_messages=True) / MessageData.to_numpy()) before and between one or more
 time_align_data() calls with different modes / type lists, also starting from read(time_align=..., return_numpy=...).
@@ -553,6 +557,9 @@ def oracle(ctx, case, r, prefix='C15/', replay=None, note=''):
         if nn != want_nn or (nn and got[-1] is not None):
             return bad('nan-entries', '%s: times %s' % (name, got))
         seen = set()
+        first_with_time = {}                # time -> index of the first input message with that time (times.index, in one pass)
+        for i0, t0 in enumerate(times):
+            first_with_time.setdefault(t0, i0)
         for pos, m in enumerate(msgs):
             t = got[pos]
             if id(m) in seen:
@@ -563,16 +570,17 @@ def oracle(ctx, case, r, prefix='C15/', replay=None, note=''):
                 # a surviving original: identical object (by construction of i), its own time, the first with that time
                 if times[i] != t or t is None:
                     return bad('survivor-time-mismatch', '%s: input message %d (time %s) listed at time %s' % (name, i, times[i], t))
-                if times.index(t) != i:
+                if first_with_time[t] != i:
                     return bad('survivor-not-first-occurrence', '%s: time %s shows input message %d, the first with that time is %d'
-                               % (name, t, i, times.index(t)))
+                               % (name, t, i, first_with_time[t]))
             else:
                 if id(m) in all_ids:
                     return bad('foreign-object', '%s: position %d holds an object of another type' % (name, pos))
                 if case['mode'] == 'drop':
                     return bad('survivor-not-original-object', '%s: position %d (time %s) is not one of the input objects' % (name, pos, t))
-                if t is not None and t in times:
-                    return bad('inserted-although-present', '%s: time %s has an input message but a new object is listed' % (name, t))
+                if t is not None and t in first_with_time:
+                    return bad('inserted-although-present', '%s: position %d of %d: time %s has an input message (number %d of %d) but a '
+                               'new object is listed' % (name, pos, len(msgs), t, first_with_time[t], len(times)))
                 if type(m) is not cls:
                     return bad('inserted-wrong-class', '%s: inserted object is a %s' % (name, type(m).__name__))
                 v = dict(vars(m))
@@ -639,30 +647,93 @@ def classify(ctx, case):
                 break
 
 
-def run_cases(ctx, cases):
-    lines, pending = [], []
-    for case in cases:
-        r = run_impl(case)
-        classify(ctx, case)
-        ok = oracle(ctx, case, r)
-        txt = impl_text(case, r) if r['err'] is None else 'error:' + r['err'].split(':')[0]
-        lines.append(model_line('align', case))
-        lines.append(model_line('alignspec', case))
-        pending.append((case, txt, ok))
-        ctx.case(lines[-2], nontrivial=nontrivial(case))
-    outs = ctx.driver(lines)
-    for j, (case, txt, ok) in enumerate(pending):
-        mo, so = outs[2 * j], outs[2 * j + 1]
-        if txt != mo:
-            ctx.disagree('time_align_data != model: impl=%s model=%s' % (txt[:300], mo[:300]), case)
-        if ok and txt != so:
+# A list of times may be given in run-length form, {'ranges': [[a, b], ...]}: the floats a, a+1, ..., b-1 of every run, one run
+# after the other (the boundary-size cases of the thorough tier have tens of thousands of epochs per type and a handful of runs).
+def expand_times(ts):
+    if isinstance(ts, dict):
+        return [float(t) for a, b in ts['ranges'] for t in range(a, b)]
+    return ts
+
+
+def expand_case(case):
+    if not any(isinstance(ts, dict) for _, ts in case['types']):
+        return case
+    return dict(case, types=[[n, expand_times(ts)] for n, ts in case['types']])
+
+
+def to_ranges(ts):
+    """Run-length form of a list of integer times (each run ascending by 1)."""
+    runs = []
+    for t in ts:
+        t = int(t)
+        if runs and runs[-1][1] == t:
+            runs[-1][1] = t + 1
+        else:
+            runs.append([t, t + 1])
+    return {'ranges': runs}
+
+
+def run_cases(ctx, cases, workers=0):
+    """case['lean'] ('both' | 'spec' | 'model', default both): which of the Lean functions answer for the case (the model's
+    executable form is quadratic; model = spec is proved).  workers > 0: every case's requests go to a driver process of their
+    own, up to `workers` at a time, while the real code runs the following cases."""
+    jobs, pending = [], []
+    pool = None
+    if workers:
+        from concurrent.futures import ThreadPoolExecutor
+        pool = ThreadPoolExecutor(max_workers=workers)
+    lines = []
+    try:
+        for case in cases:
+            full = expand_case(case)
+            r = run_impl(full)
+            classify(ctx, full)
+            ok = oracle(ctx, full, r, replay=case)
+            txt = impl_text(full, r) if r['err'] is None else 'error:' + r['err'].split(':')[0]
+            del r
+            which = case.get('lean', 'both')
+            mine = []
+            if which in ('both', 'model'):
+                mine.append(model_line('align', full))
+            if which in ('both', 'spec'):
+                mine.append(model_line('alignspec', full))
+            ctx.case(model_line('align', full) if which == 'spec' else mine[0], nontrivial=nontrivial(full))
+            if pool is not None:
+                jobs.append([pool.submit(ctx.driver, [l]) for l in mine])
+            else:
+                jobs.append((len(lines), len(mine)))
+                lines += mine
+            pending.append((case, txt, ok, which))
+        if pool is None:
+            outs = ctx.driver(lines)
+            answers = [outs[a: a + n] for a, n in jobs]
+        else:
+            answers = [[f.result()[0] for f in fs] for fs in jobs]
+    finally:
+        if pool is not None:
+            pool.shutdown(wait=True)
+    for (case, txt, ok, which), ans in zip(pending, answers):
+        mo = ans[0] if which in ('both', 'model') else None
+        so = ans[-1] if which in ('both', 'spec') else None
+        if mo is not None and txt != mo:
+            ctx.disagree('time_align_data != model: %s' % first_difference(txt, mo), case)
+        if so is not None and ok and txt != so:
             # stage D through the Lean specification
-            ctx.violation('C15/%s-differs-from-spec' % case['mode'], 'impl=%s spec=%s' % (txt[:300], so[:300]), case)
-        if mo != so:
-            ctx.disagree('model != spec (contradicts the proved refinement): %s vs %s' % (mo[:200], so[:200]), case)
+            ctx.violation('C15/%s-differs-from-spec' % case['mode'], first_difference(txt, so, 'spec'), case)
+        if mo is not None and so is not None and mo != so:
+            ctx.disagree('model != spec (contradicts the proved refinement): %s' % first_difference(mo, so, 'spec', 'model'), case)
         ctx.cov['traces_validated_against_impl'] += 1
-    for case, txt, ok in pending[:: max(1, len(pending) // 3)][:3]:
-        ctx.sample({'case': case, 'result': txt})
+    for case, txt, ok, _ in pending[:: max(1, len(pending) // 3)][:3]:
+        ctx.sample({'case': case, 'result': txt if len(txt) < 2000 else txt[:1000] + ' ... ' + txt[-1000:]})
+
+
+def first_difference(a, b, bname='model', aname='impl'):
+    """Both texts if they are short, else the surroundings of the first place where they differ."""
+    if len(a) <= 300 and len(b) <= 300:
+        return '%s=%s %s=%s' % (aname, a, bname, b)
+    k = next((i for i, (x, y) in enumerate(zip(a, b)) if x != y), min(len(a), len(b)))
+    lo = max(0, k - 120)
+    return 'first difference at character %d: %s=...%s... %s=...%s...' % (k, aname, a[lo: k + 120], bname, b[lo: k + 120])
 
 
 # ---- histories: several operations on the same dict ------------------------------------------------------------------
@@ -929,6 +1000,169 @@ def scale_case(case):
     if any(t is not None and t != int(t) for _, ts in case['types'] for t in ts):
         case['scale'] = 2
     return case
+
+
+# ---- boundary sizes ---------------------------------------------------------------------------------------------------
+# The number of epochs of the result, and the number of messages of a type, are quantities an implementation may count, index or
+# store in a machine type.  These cases put exactly such a quantity AT 2^k - 1, 2^k, 2^k + 1, 2^k + 2:
+#   at = 'union'   INSERT, the union of the aligned types has exactly N epochs
+#   at = 'common'  DROP, exactly N epochs are common to all aligned types (every type has others besides)
+#   at = 'count'   one aligned type has exactly N messages, the union is a little larger (either mode)
+# over different shapes of the sets (a type that has every epoch - at any place in the dict -, types with a few holes incl. the
+# first / last epoch, leading / trailing parts, single epochs, no complete type at all).  Judged like every other case: the
+# property oracle on the real objects (which input OBJECT sits at every position, content before / after, default content of
+# every inserted one) and the Lean model / spec.
+SIZE_EXPONENTS_QUICK = [7, 8]
+SIZE_EXPONENTS_THOROUGH = [15, 16]
+EXPLICIT_LIMIT = 1000           # above: run-length times, cheap classes, few runs per type
+
+
+def boundary_sizes(exps):
+    return sorted(set(2 ** k + d for k in exps for d in ((-1, 0, 1, 2) if k < 16 else (-1, 0, 1))))
+
+
+def cheap_p1_classes(cache=[]):
+    """The P1-time classes ordered by the size of their content snapshot (the cost of looking at every message of a large case)."""
+    if not cache:
+        p1, _ = classes()
+        cache.extend(c.__name__ for c in sorted(p1, key=lambda c: len(repr(canon.canon(c())))))
+    return cache
+
+
+def _part(rng, E, kind, big):
+    """A sub-list of the epochs E (ascending)."""
+    n = len(E)
+    if kind == 'full':
+        return list(E)
+    if kind == 'holes':
+        cand = {0, n - 1} if rng.random() < 0.5 else set()
+        holes = set(rng.sample(range(n), min(n, rng.randrange(1, 6)))) | set(x for x in cand if rng.random() < 0.5)
+        return [e for i, e in enumerate(E) if i not in holes]
+    if kind == 'head':
+        return list(E[:rng.randrange(1, n)])
+    if kind == 'tail':
+        return list(E[rng.randrange(1, n):])
+    if kind == 'single':
+        return [rng.choice([E[0], E[-1], E[-1], rng.choice(E)])]
+    if kind == 'ends':
+        return [E[0], E[-1]]
+    if kind == 'empty':
+        return []
+    pr = rng.choice([0.3, 0.6, 0.9])            # 'random' (explicit sizes only)
+    return [e for e in E if rng.random() < pr]
+
+
+def sized_case(rng, N, at, shape, big=False):
+    p1, nop1 = classes()
+    names = cheap_p1_classes()[:3] if big else [c.__name__ for c in p1]
+    k = 2 if big else rng.choice([2, 3, 3, 4])
+    names = rng.sample(names, min(k, len(names)))
+    k = len(names)
+    base = rng.choice([0, 1, 1000, 10 ** 6])
+    kinds = ['holes', 'holes', 'head', 'tail', 'single', 'ends', 'full'] + ([] if big else ['random', 'random', 'empty'])
+    if at == 'union':
+        mode = 'insert'
+        E = list(range(base, base + N))
+        if shape == 'complete':
+            sets = [list(E)] + [_part(rng, E, rng.choice(kinds), big) for _ in range(k - 1)]
+        elif shape == 'ends':
+            sets = [list(E)] + [_part(rng, E, rng.choice(['single', 'ends']), big) for _ in range(k - 1)]
+        else:
+            # no type has every epoch: overlapping leading / trailing parts; explicit sizes: also a random cover
+            if big or rng.random() < 0.5:
+                m1 = rng.randrange(1, N - 1)
+                m2 = rng.randrange(m1 + 1, N)
+                sets = [E[:m2], E[m1:]] + [_part(rng, E, rng.choice(['holes', 'head', 'tail', 'single']), big) for _ in range(k - 2)]
+            else:
+                sets = [[] for _ in range(k)]
+                for i, e in enumerate(E):
+                    own = [j for j in range(k) if rng.random() < 0.6] or [rng.randrange(k)]
+                    if len(own) == k:
+                        own.remove(i % k)
+                    for j in own:
+                        sets[j].append(e)
+    elif at == 'common':
+        mode = 'drop'
+        extra = rng.randrange(0, 7)
+        U = list(range(base, base + N + extra))
+        xs = set(rng.sample(U, extra))
+        if extra and rng.random() < 0.5:
+            xs = set(list(xs)[1:]) | {rng.choice([U[0], U[-1]])}
+        sets = [[] for _ in range(k)]
+        for e in U:
+            if e in xs:
+                own = rng.sample(range(k), rng.randrange(0, k))          # a proper subset of the types
+            else:
+                own = range(k)
+            for j in own:
+                sets[j].append(e)
+    else:
+        mode = rng.choice(['drop', 'insert'])
+        extra = rng.randrange(1, 7)
+        U = list(range(base, base + N + extra))
+        gone = set(rng.sample(U, extra))
+        sets = [[e for e in U if e not in gone]] + [_part(rng, U, rng.choice(kinds), big) for _ in range(k - 1)]
+    order = list(range(k))
+    rng.shuffle(order)                                  # the complete / counted type at any place in the dict
+    types = [[names[j], sets[j]] for j in order]
+    if not big:
+        r = rng.random()
+        if r < 0.15:
+            j = rng.randrange(k)
+            rng.shuffle(types[j][1])                    # stored out of order
+        elif r < 0.3 and at != 'count':
+            j = rng.randrange(k)
+            if types[j][1]:
+                for _ in range(rng.randrange(1, 4)):    # a repeated epoch
+                    types[j][1].insert(rng.randrange(len(types[j][1]) + 1), rng.choice(types[j][1]))
+    types = [[n, to_ranges(ts) if big else [float(t) for t in ts]] for n, ts in types]
+    if rng.random() < 0.3:
+        types.insert(rng.randrange(len(types) + 1), [rng.choice(nop1).__name__, [None] * rng.randrange(0, 3)])
+    req = None if rng.random() < 0.6 else [n for n, _ in types]
+    return {'mode': mode, 'req': req, 'types': types, 'req_form': rng.choice(['type', 'class', 'mixed']),
+            'req_container': rng.choice(['list', 'set', 'tuple']), 'size': {'N': N, 'at': at, 'shape': shape}}
+
+
+def sized_cases(ctx, exps, big=False, plan=None):
+    rng = ctx.rng
+    plan = plan or [('union', 'complete'), ('union', 'complete'), ('union', 'ends'), ('union', 'cover'), ('common', '-'), ('common', '-'),
+                    ('count', '-'), ('count', '-')]
+    cases = []
+    for N in boundary_sizes(exps):
+        for at, shape in (plan(N) if callable(plan) else plan):
+            case = sized_case(rng, N, at, shape, big)
+            if big:
+                case['lean'] = 'spec' if case['mode'] == 'insert' else 'model'      # the cheaper of the two proved-equal functions
+            cases.append(case)
+            ctx.count('boundary_size_cases_%s' % at)
+    return cases
+
+
+def big_plan(N):
+    """Thorough tier, 2^15 / 2^16: every size INSERT with a type that has every epoch; DROP and INSERT without a complete type at
+    fewer of them (a case costs seconds: every message's content is looked at before and after)."""
+    plan = [('union', 'complete')]
+    if N < 2 ** 16 - 1 or N == 2 ** 16 + 1:
+        plan.append(('common', '-'))
+    if N in (2 ** 15 + 1, 2 ** 16):
+        plan.append(('union', 'cover'))
+    return plan
+
+
+def sized_histories(ctx, exps):
+    """Histories at the boundary sizes: [conversion,] INSERT, then a second alignment of the now equal series (every type then
+    has every epoch), with conversions in between."""
+    rng = ctx.rng
+    hists = []
+    for N in boundary_sizes(exps):
+        case = sized_case(rng, N, 'union', rng.choice(['complete', 'cover']))
+        calls = [{'op': 'align', 'mode': 'insert', 'req': case['req']},
+                 {'op': 'align', 'mode': rng.choice(['insert', 'insert', 'drop']), 'req': None}]
+        if rng.random() < 0.3:
+            calls.insert(0, {'op': 'align', 'mode': 'drop', 'req': [n for n, _ in case['types']][:1]})
+        hists.append({'types': case['types'], 'ops': with_numpy(calls, rng.choice(NUMPY_PLACES), rng)})
+        ctx.count('boundary_size_histories')
+    return hists
 
 
 # ---- generators of histories ----------------------------------------------------------------------------------------
@@ -1618,8 +1852,12 @@ def run(ctx, budget):
     rnd = [scale_case(random_case(ctx.rng)) for _ in range(budget)]
     ctx.count('random_cases', len(rnd))
     run_cases(ctx, cases + rnd)
+    run_cases(ctx, sized_cases(ctx, SIZE_EXPONENTS_QUICK))
+    if ctx.thorough:
+        run_cases(ctx, sized_cases(ctx, SIZE_EXPONENTS_THOROUGH, big=True, plan=big_plan), workers=8)
     hists = history_grid(ctx)
     ctx.count('history_grid', len(hists))
+    hists += sized_histories(ctx, SIZE_EXPONENTS_QUICK)
     hists += history_sequences(ctx, 6000 if ctx.thorough else 800)
     hists += [random_history(ctx.rng) for _ in range(budget)]
     run_histories(ctx, hists)
@@ -1649,7 +1887,16 @@ def check(ctx):
                        'NaN) of length <= 3 over {1,2,NaN} (35% sample in the quick tier). Random: 1-5 types, up to 40 distinct times, '
                        'duplicates, unsorted input, negative and half-integer times, invalid (NaN) P1 times, message_types as list/set/tuple '
                        'of MessageType / classes incl. types absent from the dict. Compared per type: which input object (by id()) or '
-                       'fabricated object sits at each position and its float(p1_time). HISTORIES on one dict: 1-4 '
+                       'fabricated object sits at each position and its float(p1_time). BOUNDARY SIZES: a counted quantity put at '
+                       '2^k-1, 2^k, 2^k+1, 2^k+2 for k = 7, 8 (thorough: also k = 15 and 2^16-1..2^16+1, run-length time lists, the two '
+                       'classes with the smallest content, one Lean function - spec for INSERT, model for DROP - per case): the number of '
+                       'epochs of the INSERT union (with a type that has every epoch at any place of the dict / with single-epoch and '
+                       'first+last-only partners / with no complete type), the number of epochs common to all types in DROP (each type '
+                       'with private extras), the number of messages of one type (union a little larger, either mode); 2-4 types, holes '
+                       'incl. the first / last epoch, leading / trailing parts, stored out of order or with repeated epochs, plus '
+                       'histories INSERT -> second alignment of the now complete series at the same sizes; judged like every case: which '
+                       'input OBJECT is at every position, content of every input object before / after, default content of every '
+                       'inserted one. HISTORIES on one dict: 1-4 '
                        'time_align_data() calls with different modes / type lists, numeric conversions that keep the messages '
                        '(DataLoader.to_numpy(data, keep_messages=True, remove_nan_times=T/F), MessageData.to_numpy() of single entries) '
                        'before / between / after the calls; three P1 types over the subsets of a 3-point grid x every ordered pair of '
